@@ -33,7 +33,7 @@ class Net:
     def space(self):
         p = 1
         for ix in ref.index_order(self.inputs, self.output):
-            p *= self.size_dict[ix]
+            p *= int(self.size_dict[ix])
         return p
 
     def eq(self):
